@@ -113,14 +113,30 @@ func fixedBytes(t *rapid.T, n int, label string) Hex {
 	return rapid.SliceOfN(rapid.Byte(), n, n).Draw(t, label)
 }
 
+// recurringBytes draws n octets that are, in a third of the draws, one of 64 fixed values ("stations" that keep
+// turning up over the life of a process, next to thousands of addresses seen once): anything keyed by such a value
+// and kept across datagrams (a formatting cache, an interning table) is then revisited after it has been evicted.
+func recurringBytes(t *rapid.T, n int, label string) Hex {
+	if rapid.IntRange(0, 2).Draw(t, label+"recurring") == 0 {
+		idx := rapid.IntRange(0, 63).Draw(t, label+"station")
+		b := make([]byte, n)
+		for i := range b {
+			b[i] = byte(idx*37 + i*11 + n)
+		}
+		b[0] &^= 1
+		return b
+	}
+	return fixedBytes(t, n, label)
+}
+
 // GenL234 draws a sampled header of at most 1500 octets.
 func GenL234(t *rapid.T) L234 {
 	var p L234
 	p.Proto = rapid.SampledFrom([]uint32{1, 1, 1, 11, 12}).Draw(t, "hdrproto")
 	switch p.Proto {
 	case 1:
-		p.DstMAC = fixedBytes(t, 6, "dmac")
-		p.SrcMAC = fixedBytes(t, 6, "smac")
+		p.DstMAC = recurringBytes(t, 6, "dmac")
+		p.SrcMAC = recurringBytes(t, 6, "smac")
 		p.HasVlan = rapid.IntRange(0, 2).Draw(t, "hasvlan") == 0
 		if p.HasVlan {
 			// priority/DEI zero in half of the cases (then the tag control field equals the VLAN id)
@@ -150,8 +166,8 @@ func GenL234(t *rapid.T) L234 {
 		p.FragOff = rapid.OneOf(rapid.SampledFrom([]uint16{0, 1, 0x1fff, 0x100, 0xff}), rapid.Uint16Range(0, 0x1fff)).Draw(t, "fragoff")
 		p.TTL = rapid.Byte().Draw(t, "ttl")
 		p.Checksum = rapid.Uint16().Draw(t, "ipsum")
-		p.Src = fixedBytes(t, 4, "src4")
-		p.Dst = fixedBytes(t, 4, "dst4")
+		p.Src = recurringBytes(t, 4, "src4")
+		p.Dst = recurringBytes(t, 4, "dst4")
 	} else {
 		p.Ver6 = rapid.SampledFrom([]uint8{6, 6, 6, 0, 15, 4}).Draw(t, "ver6")
 		p.TrafficClass = rapid.Byte().Draw(t, "tclass")
@@ -219,4 +235,28 @@ func genV6(t *rapid.T, label string) Hex {
 		return b
 	}
 	return fixedBytes(t, 16, label)
+}
+
+// WeirdL4 turns the packet into one the collector has no transport decoder for: another IP protocol number or an
+// IPv6 extension-header chain (next header and header-extension length octets chosen from boundary values, the
+// rest zeros or the payload as it is). Only for robustness checks: outside C07's domain (TCP/UDP/ICMP).
+func WeirdL4(t *rapid.T, p *L234) {
+	ext := []uint8{0, 43, 44, 60, 51, 135, 139, 140}
+	if p.IPVer == 6 && rapid.IntRange(0, 2).Draw(t, "extchain") > 0 {
+		p.L4Proto = rapid.SampledFrom(ext).Draw(t, "exthdr")
+		// the first two octets of the L4 region are "next header" and "header extension length"
+		nh := rapid.SampledFrom(append(append([]uint8{}, ext...), 6, 17, 58, 59, 255)).Draw(t, "extnext")
+		hl := rapid.SampledFrom([]uint8{0, 0, 1, 2, 30, 31, 32, 63, 127, 255}).Draw(t, "extlen")
+		p.L4 = "udp"
+		p.SrcPort = uint16(nh)<<8 | uint16(hl)
+		if rapid.Bool().Draw(t, "extzeros") {
+			for i := range p.Payload {
+				p.Payload[i] = 0
+			}
+			p.UDPTail = Hex{0, 0, 0, 0}
+			p.DstPort = 0
+		}
+		return
+	}
+	p.L4Proto = rapid.SampledFrom([]uint8{0, 2, 4, 41, 47, 50, 51, 89, 132, 255}).Draw(t, "otherproto")
 }
